@@ -150,7 +150,11 @@ where
                 let moved = !after[i].iter().zip(before[i].iter()).all(|(x, y)| x.to_bits() == y.to_bits());
                 let flag = if acc[i] { 1 } else { 0 };
                 let _ = moved;
-                out.case(case, format!("{cid} {flag} {}", after[i].iter().map(|x| T::from64(*x).tok()).collect::<Vec<_>>().join(" ")));
+                let tight = target.exact_params();
+                out.case(case, format!("{cid} {flag} {}", after[i].iter().map(|x| if tight { T::from64(*x).tok_tight() } else { T::from64(*x).tok() }).collect::<Vec<_>>().join(" ")));
+                if tight && T::NAME == "f64" {
+                    out.count("rows_compared_at_f64_accuracy");
+                }
                 out.nontrivial(&format!("{}:{}:{l}:{}:{}", T::NAME, target.name(), T::from64(eps).hex(), T::from64(before[i][0]).hex()));
             }
             // reversibility of the integrator on gentle trajectories: from (x', -p') back to (x, -p)
